@@ -394,3 +394,151 @@ def all_paths_imply(ctx, fn: FuncInfo, node: ast.AST, required, side_ok=lambda l
             continue
         return False, f'path with facts {describe_facts(cl)}'
     return True, f'{len(paths)} path(s)'
+
+
+# ------------------------------------------------------------------ shape-independent views of common constructions
+
+class _Rename(ast.NodeTransformer):
+    def __init__(self, m):
+        self.m = m
+
+    def visit_Name(self, node):
+        return ast.copy_location(ast.Name(id=self.m[node.id], ctx=node.ctx), node) if node.id in self.m else node
+
+
+def _canon_elt(elt: ast.expr, target: ast.expr) -> str:
+    """Text of `elt` with the bound variable(s) of `target` renamed to _0, _1, ..."""
+    names = [n.id for n in ast.walk(target) if isinstance(n, ast.Name)]
+    m = {n: f'_{i}' for i, n in enumerate(names)}
+    import copy as _copy
+    return ast.unparse(_Rename(m).visit(_copy.deepcopy(elt)))
+
+
+def sum_view(e: ast.expr):
+    """(iterable text, summand text over `_0`) for `sum(f(x) for x in IT)`, `sum([..])`, `reduce(lambda a, b: a + f(b), IT, 0)`;
+    None when `e` is not a plain sum over one iterable."""
+    if isinstance(e, ast.Call) and unparse(e.func) == 'sum' and len(e.args) >= 1 and isinstance(e.args[0], (ast.GeneratorExp, ast.ListComp)):
+        c = e.args[0]
+        if len(c.generators) == 1 and not c.generators[0].ifs and (len(e.args) == 1 or unparse(e.args[1]) == '0'):
+            return unparse(c.generators[0].iter), _canon_elt(c.elt, c.generators[0].target)
+    if isinstance(e, ast.Call) and unparse(e.func) in ('reduce', 'functools.reduce') and len(e.args) == 3 and unparse(e.args[2]) == '0' \
+            and isinstance(e.args[0], ast.Lambda) and len(e.args[0].args.args) == 2:
+        acc, x = (a.arg for a in e.args[0].args.args)
+        b = e.args[0].body
+        if isinstance(b, ast.BinOp) and isinstance(b.op, ast.Add):
+            for l, r in ((b.left, b.right), (b.right, b.left)):
+                if isinstance(l, ast.Name) and l.id == acc and not any(isinstance(n, ast.Name) and n.id == acc for n in ast.walk(r)):
+                    return unparse(e.args[1]), _canon_elt(r, ast.Name(id=x, ctx=ast.Store()))
+    return None
+
+
+class SeqView:
+    def __init__(self, iter_, target, elt, conds, site):
+        self.iter, self.target, self.elt, self.conds, self.site = iter_, target, elt, conds, site
+
+    @property
+    def iter_text(self):
+        return unparse(self.iter)
+
+
+def seq_view(ctx, fn: FuncInfo, name: str):
+    """How the list `name` is built in `fn`: from a comprehension assigned to it, or from `name = []` plus one loop that
+    appends to it. Returns SeqView(iterable, loop target, appended element with loop-local temporaries substituted, selection
+    conditions, node) or None."""
+    for n in walk_no_nested(fn.node):
+        val = n.value if isinstance(n, (ast.Assign, ast.AnnAssign)) else None
+        tgt = (n.targets[0] if isinstance(n, ast.Assign) and len(n.targets) == 1 else getattr(n, 'target', None)) if val is not None else None
+        if tgt is not None and unparse(tgt) == name and isinstance(val, ast.ListComp) and len(val.generators) == 1:
+            g = val.generators[0]
+            return SeqView(g.iter, g.target, val.elt, list(g.ifs), n)
+    apps = [c for c in ast.walk(fn.node) if isinstance(c, ast.Call) and isinstance(c.func, ast.Attribute) and c.func.attr == 'append'
+            and unparse(c.func.value) == name and len(c.args) == 1]
+    if len(apps) != 1:
+        return None
+    pm = parent_map(fn.node)
+    loop = pm.get(id(apps[0]))
+    while loop is not None and not isinstance(loop, ast.For):
+        loop = pm.get(id(loop))
+    if loop is None:
+        return None
+    elt = deref(ctx, fn, apps[0].args[0], apps[0], depth=6)
+    # substitute loop-local single definitions inside the element
+    import copy as _copy
+    elt = _copy.deepcopy(elt)
+    for _ in range(4):
+        changed = False
+        for sub in list(ast.walk(elt)):
+            if isinstance(sub, ast.Name):
+                d = None
+                for st in walk_no_nested(loop):
+                    if isinstance(st, ast.Assign) and len(st.targets) == 1 and unparse(st.targets[0]) == sub.id:
+                        d = st.value
+                if d is not None:
+                    class R(ast.NodeTransformer):
+                        def visit_Name(self_, node):
+                            return _copy.deepcopy(d) if node.id == sub.id else node
+                    elt = R().visit(elt)
+                    changed = True
+                    break
+        if not changed:
+            break
+    conds = filter_facts_at(ctx, fn, apps[0])
+    loop_conds = [c for c in conds]
+    return SeqView(loop.iter, loop.target, elt, loop_conds, loop)
+
+
+def fmt_view(e: ast.expr):
+    """A formatted string as [('lit', text) | ('field', expr, spec)] for an f-string, a `'...'.format(...)` call or a plain
+    constant; None for anything else. Nested fields inside a format spec are given as text with the expressions substituted."""
+    import string as _string
+    if isinstance(e, ast.Constant) and isinstance(e.value, str):
+        return [('lit', e.value)]
+    if isinstance(e, ast.JoinedStr):
+        out = []
+        for v in e.values:
+            if isinstance(v, ast.Constant):
+                out.append(('lit', v.value))
+            elif isinstance(v, ast.FormattedValue):
+                spec = ''
+                if v.format_spec is not None:
+                    parts = fmt_view(v.format_spec) or []
+                    spec = ''.join(p[1] if p[0] == 'lit' else '{' + unparse(p[1]) + '}' for p in parts)
+                out.append(('field', v.value, spec))
+        return out
+    if isinstance(e, ast.Call) and isinstance(e.func, ast.Attribute) and e.func.attr == 'format' and isinstance(e.func.value, ast.Constant) \
+            and isinstance(e.func.value.value, str):
+        kw = {k.arg: k.value for k in e.keywords if k.arg}
+        pos = list(e.args)
+        out = []
+        auto = 0
+
+        def lookup(name):
+            nonlocal auto
+            if name == '':
+                name = str(auto)
+                auto += 1
+            if name.isdigit():
+                return pos[int(name)] if int(name) < len(pos) else None
+            return kw.get(name)
+        try:
+            for lit, field, spec, conv in _string.Formatter().parse(e.func.value.value):
+                if lit:
+                    out.append(('lit', lit))
+                if field is not None:
+                    base = field.split('.')[0].split('[')[0]
+                    ex = lookup(base)
+                    if ex is None or base != field:
+                        return None
+                    s2 = ''
+                    for l2, f2, sp2, c2 in _string.Formatter().parse(spec or ''):
+                        s2 += l2 or ''
+                        if f2 is not None:
+                            e2 = lookup(f2)
+                            if e2 is None:
+                                return None
+                            s2 += '{' + unparse(e2) + '}'
+                    out.append(('field', ex, s2))
+        except (ValueError, IndexError):
+            return None
+        return out
+    return None
